@@ -123,7 +123,11 @@ struct HistEngine : Engine {
 				else if (j < 68) { if (S.stale) continue; o["k"] = "E_HAS_META"; }
 				else if (j < 74) { if (S.stale) continue; o["k"] = "E_KEYS"; }
 				else if (j < 80) { if (S.stale) continue; o["k"] = "E_VALUE"; o["key"] = w.chance(1, 2) ? "title" : w.chance(1, 2) ? "Author" : "css"; }
-				else if (j < 86) { o["k"] = "E_SET_LANG"; o["lang"] = (int64_t)w.below(7); }
+				else if (j < 83) { o["k"] = "E_SET_LANG"; o["lang"] = (int64_t)w.below(7); }
+				else if (j < 86) {
+					// the caller replaces the text the engine works on (mmd_engine_d_string / its own DString) - one engine, several documents
+					o["k"] = "E_SET_TEXT"; o["doc"] = (int64_t)w.below((uint64_t)ndocs); S.doc = (int)o.geti("doc"); S.parsed = false; S.exported = false;
+				}
 				else if (j < 92) { o["k"] = "E_RESET"; S.parsed = false; S.exported = false; S.stale = false; }
 				else { o["k"] = "E_FREE"; S = PSlot(); }
 			} else if (k < 88 && use_noise) {
@@ -167,7 +171,7 @@ struct HistEngine : Engine {
 				if (k == "E_CONVERT" || k == "E_TO_DATA") { S.parsed = S.exported = true; S.stale = false; }
 				else if (k == "E_PARSE") { S.parsed = true; S.exported = false; S.stale = false; }
 				else if (k == "E_EXPORT") { if (!(S.parsed && !S.exported && !S.stale)) continue; S.exported = true; }
-				else if (k == "E_PARSE_SUB" || k == "E_RESET") { S.parsed = S.exported = false; S.stale = false; }
+				else if (k == "E_PARSE_SUB" || k == "E_RESET" || k == "E_SET_TEXT") { S.parsed = S.exported = false; S.stale = false; }
 				else if (k == "E_HAS_META" || k == "E_KEYS" || k == "E_VALUE") { if (S.stale) continue; }
 				else if (k == "E_FREE") S = PSlot();
 			}
@@ -295,6 +299,16 @@ struct HistEngine : Engine {
 				} else if (kind == "E_HAS_META") { if (S.stale) break; size_t end = 0; bool h = IN_LIB(mmd_engine_has_metadata(e, &end)); o["r"] = std::to_string(h) + ":" + std::to_string(end); if (S.parsed) probes["has_metadata_on_parsed_engine"]++; }
 				else if (kind == "E_KEYS") { if (S.stale) break; char * r = IN_LIB(mmd_engine_metadata_keys(e)); free(r); }
 				else if (kind == "E_VALUE") { if (S.stale) break; std::string key2 = op.gets("key"); (void)IN_LIB(mmd_engine_metavalue_for_key(e, key2.c_str())); }
+				else if (kind == "E_SET_TEXT") {
+					const std::string & nd = doc_of(op);
+					DString * d = IN_LIB(mmd_engine_d_string(e));
+					// a held parse tree refers to the old text: drop it first, as a caller editing the text must
+					IN_LIB_V(mmd_engine_reset(e));
+					IN_LIB_V(d_string_erase(d, 0, (size_t)-1));
+					IN_LIB_V(d_string_append(d, nd.c_str()));
+					S.text = nd; S.parsed = S.exported = false; S.stale = false;
+					probes["engine_text_replaced"]++;
+				}
 				else if (kind == "E_SET_LANG") { IN_LIB_V(mmd_engine_set_language(e, (short)op.geti("lang"))); S.lang_changed = true; }
 				else if (kind == "E_RESET") { IN_LIB_V(mmd_engine_reset(e)); S.parsed = S.exported = false; S.stale = false; }
 				else if (kind == "E_FREE") { IN_LIB_V(mmd_engine_free(e, S.own == nullptr)); if (S.own) IN_LIB_V(d_string_free(S.own, true)); S = Slot(); }
@@ -415,7 +429,9 @@ struct HistEngine : Engine {
 				if (q.gets("k") == "E_CREATE") { create = j; break; }
 			}
 			if (create < 0) return Json();
-			nops.push(use_doc(ops[(size_t)create]));
+			Json cr = ops[(size_t)create];
+			for (int j = create + 1; j < k; j++) { const Json & q = ops[(size_t)j]; if ((int)q.geti("slot") % 3 == s && q.gets("k") == "E_SET_TEXT") cr["doc"] = q.at("doc"); }
+			nops.push(use_doc(cr));
 			Json lang;
 			for (int j = create + 1; j < k; j++) { const Json & q = ops[(size_t)j]; if ((int)q.geti("slot") % 3 == s && q.gets("k") == "E_SET_LANG") lang = q; }
 			if (!lang.is_null()) nops.push(lang);
